@@ -7,11 +7,11 @@
    Strength labels: FULL = closed theorem about the model for all inputs; COND = premises named in the statement;
    PARTIAL = weaker than the intended statement, which is kept as a Definition ..._full_statement. *)
 From Coq Require Import ZArith NArith List.
-From LP Require Import Scalar ScalarProofs UPoly RefAlg AlgNum.
+From LP Require Import Scalar ScalarProofs UPoly RefAlg AlgNum AlgNumCheck.
 Set Warnings "-notation-overridden,-ambiguous-paths".
 From mathcomp Require Import all_ssreflect all_algebra all_real_closed.
 From mathcomp Require Import ssrZ.
-From LP Require Import AlgNumProofs AlgNumRootProofs AlgNumGcd.
+From LP Require Import AlgNumProofs AlgNumRootProofs AlgNumGcd RefAlgSpec AlgNumCheckProofs.
 Set Warnings "notation-overridden,ambiguous-paths".
 Import GRing.Theory Num.Theory Num.Def Order.TTheory.
 Local Open Scope ring_scope.
@@ -275,3 +275,234 @@ Example C07_example_cmp_equal :
   an_cmp 10 an_ref_gcd an_half_example (an_point (mkDy 1%ZZ (N.of_nat 1)))
   = Some (Z0, an_point (mkDy 1%ZZ (N.of_nat 1)), an_point (mkDy 1%ZZ (N.of_nat 1))).
 Proof. reflexivity. Qed.
+
+(* ---- 10. THE ACCEPTANCE TEST of the driver is sound (FULL).  `AlgNumCheck.accept_op fuel op args result` is the extracted
+        function by which ocaml/p_c07.ml accepts what libpoly printed for an lp_algebraic_number_* call: the operands and the
+        result are the printed structs read as RefAlg.rnum (point -> RQ, (f, ]a,b[) -> RA f a b; `rn_norm` replaces f by its
+        square-free part), scalars are the printed integers / truth values / rationals.  Whenever the operand
+        representations denote a, b in a real closed field R (`RefAlgSpec.rn_denotes`: THE root of the polynomial in the
+        open interval, with a sign change) and the test says `true`, libpoly's answer is the mathematically right one. *)
+Theorem C07_accept_add_sound : forall (R : rcfType) (fuel : nat) (x y r : rnum) (a b : R),
+  RefAlgSpec.rn_denotes (rn_norm x) a -> RefAlgSpec.rn_denotes (rn_norm y) b ->
+  accept_op fuel KAdd [:: x; y] (VNum r) -> RefAlgSpec.rn_denotes (rn_norm r) (a + b).
+Proof. exact accept_add_sound. Qed.
+Print Assumptions C07_accept_add_sound.
+
+Theorem C07_accept_sub_sound : forall (R : rcfType) (fuel : nat) (x y r : rnum) (a b : R),
+  RefAlgSpec.rn_denotes (rn_norm x) a -> RefAlgSpec.rn_denotes (rn_norm y) b ->
+  accept_op fuel KSub [:: x; y] (VNum r) -> RefAlgSpec.rn_denotes (rn_norm r) (a - b).
+Proof. exact accept_sub_sound. Qed.
+Print Assumptions C07_accept_sub_sound.
+
+Theorem C07_accept_neg_sound : forall (R : rcfType) (fuel : nat) (x r : rnum) (a : R),
+  RefAlgSpec.rn_denotes (rn_norm x) a ->
+  accept_op fuel KNeg [:: x] (VNum r) -> RefAlgSpec.rn_denotes (rn_norm r) (- a).
+Proof. exact accept_neg_sound. Qed.
+Print Assumptions C07_accept_neg_sound.
+
+Theorem C07_accept_mul_sound : forall (R : rcfType) (fuel : nat) (x y r : rnum) (a b : R),
+  RefAlgSpec.rn_denotes (rn_norm x) a -> RefAlgSpec.rn_denotes (rn_norm y) b ->
+  accept_op fuel KMul [:: x; y] (VNum r) -> RefAlgSpec.rn_denotes (rn_norm r) (a * b).
+Proof. exact accept_mul_sound. Qed.
+Print Assumptions C07_accept_mul_sound.
+
+(* an accepted inverse / quotient: the operand / divisor is not zero and the result is 1/a, a/b; an accepted refusal
+   ("undefined") happens only at zero *)
+Theorem C07_accept_inv_sound : forall (R : rcfType) (fuel : nat) (x r : rnum) (a : R),
+  RefAlgSpec.rn_denotes (rn_norm x) a ->
+  accept_op fuel KInv [:: x] (VNum r) -> a != 0 /\ RefAlgSpec.rn_denotes (rn_norm r) a^-1.
+Proof. exact accept_inv_sound. Qed.
+Print Assumptions C07_accept_inv_sound.
+
+Theorem C07_accept_inv_undef_sound : forall (R : rcfType) (fuel : nat) (x : rnum) (a : R),
+  RefAlgSpec.rn_denotes (rn_norm x) a -> accept_op fuel KInv [:: x] VUndef -> a = 0.
+Proof. exact accept_inv_undef_sound. Qed.
+Print Assumptions C07_accept_inv_undef_sound.
+
+Theorem C07_accept_div_sound : forall (R : rcfType) (fuel : nat) (x y r : rnum) (a b : R),
+  RefAlgSpec.rn_denotes (rn_norm x) a -> RefAlgSpec.rn_denotes (rn_norm y) b ->
+  accept_op fuel KDiv [:: x; y] (VNum r) -> b != 0 /\ RefAlgSpec.rn_denotes (rn_norm r) (a / b).
+Proof. exact accept_div_sound. Qed.
+Print Assumptions C07_accept_div_sound.
+
+Theorem C07_accept_div_undef_sound : forall (R : rcfType) (fuel : nat) (x y : rnum) (a b : R),
+  RefAlgSpec.rn_denotes (rn_norm x) a -> RefAlgSpec.rn_denotes (rn_norm y) b ->
+  accept_op fuel KDiv [:: x; y] VUndef -> b = 0.
+Proof. exact accept_div_undef_sound. Qed.
+Print Assumptions C07_accept_div_undef_sound.
+
+Theorem C07_accept_pow_sound : forall (R : rcfType) (fuel n : nat) (x r : rnum) (a : R),
+  RefAlgSpec.rn_denotes (rn_norm x) a ->
+  accept_op fuel (KPow n) [:: x] (VNum r) -> RefAlgSpec.rn_denotes (rn_norm r) (a ^+ n).
+Proof. exact accept_pow_sound. Qed.
+Print Assumptions C07_accept_pow_sound.
+
+(* positive_root: the accepted result denotes THE non-negative n-th root of a (it exists, and it is the only one);
+   an accepted refusal happens only for n = 0 or a negative operand *)
+Theorem C07_accept_positive_root_sound : forall (R : rcfType) (fuel n : nat) (x r : rnum) (a : R),
+  RefAlgSpec.rn_denotes (rn_norm x) a -> accept_op fuel (KRoot n) [:: x] (VNum r) ->
+  exists v : R, [/\ RefAlgSpec.rn_denotes (rn_norm r) v, 0 <= v, v ^+ n = a &
+                    forall w : R, 0 <= w -> w ^+ n = a -> w = v].
+Proof. exact accept_root_sound. Qed.
+Print Assumptions C07_accept_positive_root_sound.
+
+Theorem C07_accept_positive_root_undef_sound : forall (R : rcfType) (fuel n : nat) (x : rnum) (a : R),
+  RefAlgSpec.rn_denotes (rn_norm x) a -> accept_op fuel (KRoot n) [:: x] VUndef -> n = 0%N \/ a < 0.
+Proof. exact accept_root_undef_sound. Qed.
+Print Assumptions C07_accept_positive_root_undef_sound.
+
+(* sign and order: the printed integer IS the sign of a, of a - b, of a - z, a - m/2^k, a - q *)
+Theorem C07_accept_sgn_sound : forall (R : rcfType) (fuel : nat) (x : rnum) (c : Z) (a : R),
+  RefAlgSpec.rn_denotes (rn_norm x) a -> accept_op fuel KSgn [:: x] (VInt c) -> RefAlgSpec.zr c = sgr a.
+Proof. exact accept_sgn_sound. Qed.
+Print Assumptions C07_accept_sgn_sound.
+
+Theorem C07_accept_cmp_sound : forall (R : rcfType) (fuel : nat) (x y : rnum) (c : Z) (a b : R),
+  RefAlgSpec.rn_denotes (rn_norm x) a -> RefAlgSpec.rn_denotes (rn_norm y) b ->
+  accept_op fuel KCmp [:: x; y] (VInt c) -> RefAlgSpec.zr c = sgr (a - b).
+Proof. exact accept_cmp_sound. Qed.
+Print Assumptions C07_accept_cmp_sound.
+
+Theorem C07_accept_cmp_integer_sound : forall (R : rcfType) (fuel : nat) (z : Z) (x : rnum) (c : Z) (a : R),
+  RefAlgSpec.rn_denotes (rn_norm x) a ->
+  accept_op fuel (KCmpZ z) [:: x] (VInt c) -> RefAlgSpec.zr c = sgr (a - RefAlgSpec.zr z).
+Proof. exact accept_cmp_integer_sound. Qed.
+Print Assumptions C07_accept_cmp_integer_sound.
+
+Theorem C07_accept_cmp_dyadic_sound : forall (R : rcfType) (fuel : nat) (d : dyadic) (x : rnum) (c : Z) (a : R),
+  RefAlgSpec.rn_denotes (rn_norm x) a ->
+  accept_op fuel (KCmpD d) [:: x] (VInt c) ->
+  RefAlgSpec.zr c = sgr (a - RefAlgSpec.zr (da d) / RefAlgSpec.zr (pow2 (dn d))).
+Proof. exact accept_cmp_dyadic_sound. Qed.
+Print Assumptions C07_accept_cmp_dyadic_sound.
+
+Theorem C07_accept_cmp_rational_sound : forall (R : rcfType) (fuel : nat) (q : Z * Z) (x : rnum) (c : Z) (a : R),
+  RefAlgSpec.rn_denotes (rn_norm x) a ->
+  accept_op fuel (KCmpQ q) [:: x] (VInt c) -> RefAlgSpec.zr c = sgr (a - RefAlgSpec.qr q).
+Proof. exact accept_cmp_rational_sound. Qed.
+Print Assumptions C07_accept_cmp_rational_sound.
+
+(* floor, ceiling, integrality, rationality, the rational value *)
+Theorem C07_accept_floor_sound : forall (R : rcfType) (fuel : nat) (x : rnum) (z : Z) (a : R),
+  RefAlgSpec.rn_denotes (rn_norm x) a ->
+  accept_op fuel KFloor [:: x] (VInt z) -> RefAlgSpec.zr z <= a < RefAlgSpec.zr z + 1.
+Proof. exact accept_floor_sound. Qed.
+Print Assumptions C07_accept_floor_sound.
+
+Theorem C07_accept_ceiling_sound : forall (R : rcfType) (fuel : nat) (x : rnum) (z : Z) (a : R),
+  RefAlgSpec.rn_denotes (rn_norm x) a ->
+  accept_op fuel KCeil [:: x] (VInt z) -> RefAlgSpec.zr z - 1 < a <= RefAlgSpec.zr z.
+Proof. exact accept_ceiling_sound. Qed.
+Print Assumptions C07_accept_ceiling_sound.
+
+Theorem C07_accept_is_integer_sound : forall (R : rcfType) (fuel : nat) (x : rnum) (w : bool) (a : R),
+  RefAlgSpec.rn_denotes (rn_norm x) a ->
+  accept_op fuel KIsInt [:: x] (VBool w) -> w = true <-> exists z : Z, a = RefAlgSpec.zr z.
+Proof. exact accept_is_integer_sound. Qed.
+Print Assumptions C07_accept_is_integer_sound.
+
+(* is_rational is compared one-sidedly (libpoly's test is syntactic; answering 0 for a hidden rational is documented) *)
+Theorem C07_accept_is_rational_sound : forall (R : rcfType) (fuel : nat) (x : rnum) (a : R),
+  RefAlgSpec.rn_denotes (rn_norm x) a ->
+  accept_op fuel KIsRat [:: x] (VBool true) -> exists q : Z * Z, RefAlgSpec.qpos q /\ a = RefAlgSpec.qr q.
+Proof. exact accept_is_rational_sound. Qed.
+Print Assumptions C07_accept_is_rational_sound.
+
+Theorem C07_accept_to_rational_sound : forall (R : rcfType) (fuel : nat) (x : rnum) (q : Z * Z) (a : R),
+  RefAlgSpec.rn_denotes (rn_norm x) a ->
+  accept_op fuel KToRat [:: x] (VRat q) -> RefAlgSpec.qpos q /\ a = RefAlgSpec.qr q.
+Proof. exact accept_to_rational_sound. Qed.
+Print Assumptions C07_accept_to_rational_sound.
+
+(* approximations (to_rational of a number kept with a polynomial, to_double, midpoints): within eps of the number *)
+Theorem C07_accept_approx_sound : forall (R : rcfType) (fuel : nat) (eps : Z * Z) (x : rnum) (q : Z * Z) (a : R),
+  RefAlgSpec.rn_denotes (rn_norm x) a ->
+  accept_op fuel (KApprox eps) [:: x] (VRat q) -> `|a - RefAlgSpec.qr q| <= RefAlgSpec.qr eps.
+Proof. exact accept_approx_sound. Qed.
+Print Assumptions C07_accept_approx_sound.
+
+(* a struct re-read after a call that may refine it through a const pointer (and copies): still the same number *)
+Theorem C07_accept_same_sound : forall (R : rcfType) (fuel : nat) (x r : rnum) (a : R),
+  RefAlgSpec.rn_denotes (rn_norm x) a ->
+  accept_op fuel KSame [:: x] (VNum r) -> RefAlgSpec.rn_denotes (rn_norm r) a.
+Proof. exact accept_same_sound. Qed.
+Print Assumptions C07_accept_same_sound.
+
+(* all of the above in one statement (result_true lists, per operation, what the accepted answer means; anything
+   `accept_op` has no case for is rejected), and the hypothesis is satisfiable for every operand list that passes the
+   driver's validity test rn_valid *)
+Theorem C07_accept_op_sound : forall (R : rcfType) (fuel : nat) (op : c07_op) (args : seq rnum) (vals : seq R)
+  (res : c07_result),
+  args_denote args vals -> accept_op fuel op args res -> result_true op vals res.
+Proof. exact accept_op_sound. Qed.
+Print Assumptions C07_accept_op_sound.
+
+Theorem C07_accept_valid_args_denote : forall (R : rcfType) (args : seq rnum),
+  List.forallb rn_valid args -> exists vals : seq R, args_denote args vals.
+Proof. exact valid_args_denote. Qed.
+Print Assumptions C07_accept_valid_args_denote.
+
+(* non-vacuity: sqrt2 = (x^2 - 2, ]1,2[), sqrt3 = (x^2 - 3, ]1,2[) are valid; the test accepts sqrt2 + sqrt3 =
+   (x^4 - 10x^2 + 1, ]3,4[) (and libpoly-style non-square-free input (x^2-2)^2 for sqrt2), sqrt2 * sqrt3 = (x^2 - 6, ]2,3[),
+   1/sqrt2 = (2x^2 - 1, ]1/2,1[), sqrt2^3 = (x^2 - 8, ]2,3[), positive_root(sqrt2 + sqrt3 squared ...), signs, order, floor,
+   and REJECTS wrong answers: the other positive root of x^4 - 10x^2 + 1, a wrong sign, a wrong floor *)
+Section AcceptExamples.
+Local Open Scope Z_scope.
+Let s2 : rnum := RA [:: -2; 0; 1] (1, 1) (2, 1).
+Let s3 : rnum := RA [:: -3; 0; 1] (1, 1) (2, 1).
+Let s2s3 : rnum := RA [:: 1; 0; -10; 0; 1] (3, 1) (4, 1).
+Example C07_accept_example_valid : List.forallb rn_valid [:: s2; s3; s2s3] = true.
+Proof. by vm_compute. Qed.
+Example C07_accept_example_valid2 : List.forallb rn_valid [:: s2; s3] = true.
+Proof. by vm_compute. Qed.
+Example C07_accept_example_add : accept_op 60 KAdd [:: s2; s3] (VNum s2s3) = true.
+Proof. by vm_compute. Qed.
+Example C07_accept_example_add_nonsquarefree :
+  accept_op 60 KAdd [:: RA [:: 4; 0; -4; 0; 1] (1, 1) (2, 1); s3] (VNum s2s3) = true.
+Proof. by vm_compute. Qed.
+Example C07_accept_example_add_rejects : accept_op 60 KAdd [:: s2; s3] (VNum (RA [:: 1; 0; -10; 0; 1] (0, 1) (1, 1))) = false.
+Proof. by vm_compute. Qed.
+Example C07_accept_example_sub : accept_op 60 KSub [:: s2s3; s2] (VNum s3) = true.
+Proof. by vm_compute. Qed.
+Example C07_accept_example_mul : accept_op 60 KMul [:: s2; s3] (VNum (RA [:: -6; 0; 1] (2, 1) (3, 1))) = true.
+Proof. by vm_compute. Qed.
+Example C07_accept_example_inv : accept_op 60 KInv [:: s2] (VNum (RA [:: -1; 0; 2] (1, 2) (1, 1))) = true.
+Proof. by vm_compute. Qed.
+Example C07_accept_example_inv_undef : accept_op 60 KInv [:: RQ (0, 1)] VUndef = true /\ accept_op 60 KInv [:: s2] VUndef = false.
+Proof. by vm_compute. Qed.
+Example C07_accept_example_div : accept_op 60 KDiv [:: RA [:: -6; 0; 1] (2, 1) (3, 1); s2] (VNum s3) = true.
+Proof. by vm_compute. Qed.
+Example C07_accept_example_neg : accept_op 60 KNeg [:: s2] (VNum (RA [:: -2; 0; 1] (-2, 1) (-1, 1))) = true.
+Proof. by vm_compute. Qed.
+Example C07_accept_example_pow : accept_op 60 (KPow 3) [:: s2] (VNum (RA [:: -8; 0; 1] (2, 1) (3, 1))) = true.
+Proof. by vm_compute. Qed.
+Example C07_accept_example_root : accept_op 60 (KRoot 2) [:: s2] (VNum (RA [:: -2; 0; 0; 0; 1] (1, 1) (2, 1))) = true
+  /\ accept_op 60 (KRoot 2) [:: s2] (VNum (RA [:: -2; 0; 0; 0; 1] (-2, 1) (-1, 1))) = false
+  /\ accept_op 60 (KRoot 2) [:: RQ (-1, 1)] VUndef = true.
+Proof. by vm_compute. Qed.
+Example C07_accept_example_order :
+  accept_op 60 KSgn [:: s2] (VInt 1) = true /\ accept_op 60 KSgn [:: s2] (VInt 0) = false /\
+  accept_op 60 KCmp [:: s2; s3] (VInt (-1)) = true /\ accept_op 60 KCmp [:: s2; s3] (VInt 1) = false /\
+  accept_op 60 KCmp [:: s2; RA [:: 4; 0; -4; 0; 1] (0, 1) (3, 1)] (VInt 0) = true /\
+  accept_op 60 (KCmpZ 1) [:: s2] (VInt 1) = true /\ accept_op 60 (KCmpD (mkDy 3 1)) [:: s2] (VInt (-1)) = true /\
+  accept_op 60 (KCmpQ (7, 5)) [:: s2] (VInt 1) = true /\ accept_op 60 (KCmpQ (17, 12)) [:: s2] (VInt 1) = false.
+Proof. by vm_compute. Qed.
+Example C07_accept_example_floor :
+  accept_op 60 KFloor [:: s2s3] (VInt 3) = true /\ accept_op 60 KFloor [:: s2s3] (VInt 4) = false /\
+  accept_op 60 KCeil [:: s2s3] (VInt 4) = true /\ accept_op 60 KIsInt [:: s2] (VBool false) = true /\
+  accept_op 60 KIsInt [:: RA [:: -2; 1] (1, 1) (3, 1)] (VBool true) = true /\
+  accept_op 60 KIsRat [:: s2] (VBool true) = false /\ accept_op 60 KIsRat [:: RA [:: -1; 2] (0, 1) (1, 1)] (VBool true) = true /\
+  accept_op 60 KToRat [:: RA [:: -1; 2] (0, 1) (1, 1)] (VRat (1, 2)) = true /\
+  accept_op 60 (KApprox (1, 100)) [:: s2] (VRat (141, 100)) = true /\
+  accept_op 60 (KApprox (1, 1000)) [:: s2] (VRat (141, 100)) = false.
+Proof. by vm_compute. Qed.
+(* ... and in every real closed field the accepted sum IS the sum of the two numbers the operands denote *)
+Example C07_accept_example_meaning : forall R : rcfType, exists a b : R,
+  [/\ RefAlgSpec.rn_denotes (rn_norm s2) a, RefAlgSpec.rn_denotes (rn_norm s3) b &
+      RefAlgSpec.rn_denotes (rn_norm s2s3) (a + b)].
+Proof.
+move=> R; have [vals dv] := @C07_accept_valid_args_denote R [:: s2; s3] C07_accept_example_valid2.
+have [a [b [_ da db]]] := args2 dv; exists a, b; split=> //.
+exact: (@C07_accept_add_sound R 60 s2 s3 s2s3 a b da db C07_accept_example_add).
+Qed.
+End AcceptExamples.
